@@ -1285,3 +1285,37 @@ def selftest(ctx):
         ok = ok and hit
         print("selftest: corruption %d must be rejected by %s: %s (clauses %s)" % (nid, e, "yes" if hit else "NO", got.get(nid)))
     return 0 if ok else 1
+
+
+def replay(ctx, rec):
+    """./check C38 --replay FILE : run the recorded input again (new processes) and judge it"""
+    d = rec["data"]
+    inp = d.get("input") or {}
+    if "skeleton" in inp:
+        P = skeleton_upj({"feats": inp["feats"], "items": [{"kind": k, "orig": cp(n)} for k, n in inp["skeleton"]]})
+        pre = skeleton_upj({"feats": ["temporal"] if "temporal" not in inp["feats"] else ["traj"], "items": []})
+    elif "problem" in inp:
+        P, pre = inp["problem"], inp.get("written_before")
+    else:
+        print("nothing to replay in this record")
+        return 2
+    lang = d["lang"]
+    kws = run_tasks([{"kind": "kw"}])[0]
+    kwpath = os.path.join(ctx.sub("const"), "kw.json")
+    tlc.write_json(kwpath, kws)
+    pl = _Plan(0)
+    pl.add(lang, "k", [{"op": "write", "P": P}], "fresh", inp)
+    if len(d.get("history", [])) > 1 and pre is not None:
+        pl.add(lang, "k", [{"op": "touch", "P": pre}, {"op": "write", "P": P}], "fresh", inp)
+    res = run_tasks(pl.tasks)
+    for r in res:
+        for o in r.get("ops", []):
+            if o.get("out"):
+                print("\n".join(o["out"]))
+    traces = assemble(ctx, res, pl.plan, len(kws["general"]), {})
+    judge(ctx, "replay", traces, {"KW": kwpath}, pl.meta)
+    same = [v for v in ctx.violations if v.sig == rec["signature"]]
+    for v in ctx.violations:
+        print("replay: %s -- %s" % (v.sig, v.what))
+    print("replay: signature %s %s" % (rec["signature"], "REPRODUCED" if same else "not reproduced"))
+    return 1 if same else 0
